@@ -518,6 +518,19 @@ func (e *Engine) Enumerate(fn *ssa.Function) []*Obligation {
 						add(in, "make", "make cap "+cp.String(), goals...)
 					}
 				}
+			case *ssa.Convert:
+				// unsigned -> signed of the same width: the linear forms identify the two values, which
+				// is only right while the operand stays below the sign bit; that is an obligation
+				if isInteger(x.X.Type()) && isInteger(x.Type()) && isUnsigned(x.X.Type()) && !isUnsigned(x.Type()) && sizeOf(x.Type()) == sizeOf(x.X.Type()) && sizeOf(x.Type()) >= 4 {
+					if _, isK := constInt(x.X); !isK {
+						v := c.lin(x.X)
+						bound := int64(1) << 56
+						if sizeOf(x.Type()) == 4 {
+							bound = 1<<31 - 1
+						}
+						add(in, "conv", "sign of "+v.String(), Ineq{Const(bound).Sub(v), "operand below the sign bit"})
+					}
+				}
 			case *ssa.TypeAssert:
 				if !x.CommaOk {
 					if typeGuarded(fn, x) {
